@@ -158,7 +158,7 @@ def Fits (d : Dom) (head : Option Id) (m : Mode) (up : List Id) (ph : Phase) : P
   match m with
   | .beforeHead => up = [] ∧ ph = .p0
   | .inHead => ∃ h, head = some h ∧ up = [h] ∧ ph = .p1
-  | .inHeadNoscript => ∃ h x, head = some h ∧ up = [h, x] ∧ ph = .p1
+  | .inHeadNoscript => ∃ h x, head = some h ∧ up = [h, x] ∧ ph = .p1 ∧ nm d x = hN "noscript"
   | .afterHead => up = [] ∧ ph = .p1
   | .afterBody => ∃ b up', up = b :: up' ∧ ph = .pb b ∧ ∀ h, head = some h → h ∉ up
   | .afterAfterBody => ∃ b up', up = b :: up' ∧ ph = .pb b ∧ ∀ h, head = some h → h ∉ up
@@ -179,7 +179,7 @@ def Fits (d : Dom) (head : Option Id) (m : Mode) (up : List Id) (ph : Phase) : P
 def FitsM (s : State) (up : List Id) (ph : Phase) : Prop :=
   match s.mode with
   | .text => ∃ om up0 x, s.origMode = some om ∧ up = up0 ++ [x] ∧ om ≠ .text ∧ om ≠ .inTableText ∧
-      Fits s.dom s.headElem om up0 ph
+      Fits s.dom s.headElem om up0 ph ∧ htmlIn (nm s.dom x) ["table", "tbody", "tfoot", "thead", "tr", "template"] = false
   | .inTableText => ∃ om, s.origMode = some om ∧ (om = .inTable ∨ om = .inTableBody ∨ om = .inRow) ∧
       Fits s.dom s.headElem om up ph
   | m => Fits s.dom s.headElem m up ph
